@@ -425,6 +425,26 @@ func indexIn(ins ssa.Instruction) int {
 
 // instrDominates reports whether a is executed before b on every path reaching b.
 func instrDominates(a, b ssa.Instruction) bool {
+	if a.Parent() != b.Parent() {
+		// one of them lies in a new helper: compare through the helper's (single) call site
+		if h := a.Parent(); newHelpers[h] && len(helperSites[h]) == 1 {
+			// a runs inside the call; it precedes b if it is on every path through the helper and
+			// the call dominates b
+			all := true
+			for _, blk := range h.Blocks {
+				if _, isRet := blk.Instrs[len(blk.Instrs)-1].(*ssa.Return); isRet && !(a.Block() == blk || a.Block().Dominates(blk)) {
+					all = false
+				}
+			}
+			cs := helperSites[h][0]
+			return all && (ssa.Instruction(cs) == b || instrDominates(cs, b))
+		}
+		if h := b.Parent(); newHelpers[h] && len(helperSites[h]) == 1 {
+			cs := helperSites[h][0]
+			return ssa.Instruction(cs) == a || instrDominates(a, cs)
+		}
+		return false
+	}
 	if a.Block() == b.Block() {
 		return indexIn(a) < indexIn(b)
 	}
